@@ -3,7 +3,7 @@
 From Coq Require Import String.
 From Coq Require Import List Ascii ZArith Bool Lia Sorting.Sorted Sorting.Permutation.
 From CGV Require Import Base.PyBase Base.PyVal Base.NxGraph Resolve.Bonding Resolve.GraphOps Resolve.Pipeline
-     Resolve.MapDefs Resolve.Witness Resolve.SortProofs Resolve.VirtualProofs Resolve.SortGraphProofs Resolve.DriversInst Resolve.NameProofs.
+     Resolve.MapDefs Resolve.Witness Resolve.SortProofs Resolve.VirtualProofs Resolve.SortGraphProofs Resolve.DriversInst Resolve.NameProofs Resolve.NameStep Resolve.PipelineFull.
 From CGV Require Import Hydro.SquashDefs.
 From CGV Require Hydro.SquashProofs.
 Import ListNotations.
@@ -101,6 +101,21 @@ Theorem C12_names_unique_per_coarse_node : forall (E : list pystr), Forall digit
   shared_ok (fun k => node_get mol k (S "fragid")) [] (fraglist_of meta fgs) ->
   forall g, In g (fraglist_of meta fgs) -> NoDup (map (name_in mol') (snd g)).
 Proof. intros E HE. exact (names_unique_per_coarse_node E (label_inj_list E HE)). Qed.
+(** the hypotheses about the coarse node lists are facts about annotate_fragments: for a fine graph with distinct keys and
+    fragid lists without repeated entries, and distinct coarse keys, every coarse node lists its atoms once and an atom met in
+    two coarse nodes has more than one fragid entry *)
+Theorem C12_annotate_groups : forall meta mol fgs, annotate_fragments meta mol = Ok fgs ->
+  NoDup (node_keys mol) -> NoDup (node_keys meta) -> fragid_nodup mol ->
+  (forall g, In g (fraglist_of meta fgs) -> NoDup (snd g)) /\
+  shared_ok (fun k => node_get mol k (S "fragid")) [] (fraglist_of meta fgs).
+Proof. exact annotate_groups. Qed.
+(** hence, for the graphs a whole all-atom step (end-to-end model) RETURNS: within every coarse node the atom names read from
+    the returned fine graph are pairwise distinct *)
+Theorem C12_step_names_unique : forall (E : list pystr) legacy fd prev car fo, Forall digit_free E ->
+  resolve_step_full legacy true fd prev car = Ok fo ->
+  NoDup (node_keys (fo_m6 fo)) -> NoDup (node_keys (fo_meta fo)) -> fragid_nodup (fo_m6 fo) -> elemsE E (fo_m6 fo) ->
+  forall k g, In (k, g) (fo_fgs fo) -> NoDup (map (name_in (fo_mol fo)) (node_keys g)).
+Proof. exact step_names_unique. Qed.
 (** element ++ str(index) determines element and index when the element has no digit *)
 Theorem C12_label_injective : forall e e' i j, digit_free e -> digit_free e' -> 0 <= i -> 0 <= j ->
   atom_label e i = atom_label e' j -> e = e' /\ i = j.
@@ -199,6 +214,8 @@ Proof. exact resolve_all_is_instance. Qed.
 
 Print Assumptions C12_names_unique_per_coarse_node.
 Print Assumptions C12_label_injective.
+Print Assumptions C12_annotate_groups.
+Print Assumptions C12_step_names_unique.
 Print Assumptions C12_sort_keys.
 Print Assumptions C12_sort_sorted.
 Print Assumptions C12_block_contiguous.
